@@ -215,3 +215,17 @@ reg(PropertySpec(
                  "the dictionary shapes are enumerated to nesting depth 3 (the induction over depth is not mechanised)"],
     miss=["network weights and transform statistics are checked by the bounded stand-in only", "History.save/load and BaseTransform.save/load are covered by the bounded stand-in only"],
 ))
+
+FLOWQ = ["flows.torch.flows:ZukoFlow.sample_and_log_prob", "flows.torch.flows:ZukoFlow.log_prob", "flows.torch.flows:ZukoFlow.sample",
+         "flows.jax.flows:FlowJax.sample_and_log_prob", "flows.jax.flows:FlowJax.log_prob", "flows.jax.flows:FlowJax.sample"]
+
+reg(PropertySpec(
+    "C03", "The fitted proposal is a normalised density; sampling and evaluation agree",
+    functions=FLOWQ, lean=["C04.lean"],
+    native=_lazy("checks.native_misc", "native_C03"),
+    technique="contract-based deductive verification of the flow wrappers: the real ZukoFlow/FlowJax sample_and_log_prob, log_prob and sample are executed symbolically with row-wise models of the neural flow and the data transform; obligations: log_q = base_lp(x') - logJ_inv(x'), log_prob = base_lp(T x) + logJ_fwd(x), and (using the data transform's C04 contract at the goal's row) the log-density returned with draws equals log_prob at those draws; draws inside the bounds from the Lean theorems about the generated inverse maps; bounded native agreement / quadrature / reload",
+    trusted_base=["change of variables for densities (trusted mathematics): with T a bijection with exact log-Jacobian (C04) and a normalised base flow, log_prob is a normalised density"],
+    assumptions=["zuko/flowjax base flows are normalised densities whose sampling and evaluation are mutually consistent (external)", "the data transform satisfies its C04 contract (proved per map in Lean; composition in CompositeTransform)",
+                 "inside the clipping margin of a bounded map the transform is not a bijection (mass O(eps))"],
+    miss=["network weights across save/load (bounded stand-in only)", "anything inside zuko / flowjax"],
+))
